@@ -7,6 +7,7 @@ require (
 	github.com/prometheus/client_golang v1.22.0
 	github.com/pterm/pterm v0.12.79
 	go.etcd.io/bbolt v1.4.0
+	gopkg.in/yaml.v3 v3.0.1
 )
 
 require (
@@ -63,7 +64,6 @@ require (
 	golang.org/x/text v0.23.0 // indirect
 	golang.org/x/time v0.11.0 // indirect
 	google.golang.org/protobuf v1.36.5 // indirect
-	gopkg.in/yaml.v3 v3.0.1 // indirect
 )
 
 replace github.com/markusressel/fan2go => /repo
